@@ -58,6 +58,23 @@ class Mod:
             self.tree = ast.parse(self.src, filename=self.path)
         except (OSError, SyntaxError) as e:
             raise AnalysisError("cannot parse %s: %s" % (self.rel, e))
+        # memoising decorators: read like a plain property / method by every rule (first evaluation); the functions are
+        # recorded so that the memoisation itself is checked (pyutil.memo_sound)
+        self.memoised = []
+        for cls_ in [x for x in ast.walk(self.tree) if isinstance(x, ast.ClassDef)]:
+            for m_ in [x for x in cls_.body if isinstance(x, ast.FunctionDef)]:
+                keep = []
+                for d_ in m_.decorator_list:
+                    core = d_.func if isinstance(d_, ast.Call) else d_
+                    nm_ = core.attr if isinstance(core, ast.Attribute) else core.id if isinstance(core, ast.Name) else None
+                    if nm_ == "cached_property":
+                        self.memoised.append((cls_.name, m_, nm_))
+                        keep.append(ast.copy_location(ast.Name(id="property", ctx=ast.Load()), d_))
+                    elif nm_ in ("lru_cache", "cache"):
+                        self.memoised.append((cls_.name, m_, nm_))
+                    else:
+                        keep.append(d_)
+                m_.decorator_list = keep
         # helpers introduced after the pinned commit are inlined into their callers (see inline.py)
         from inline import Inliner, StructNorm, Evolve
         self.struct_normalised = StructNorm(self.tree).run()
